@@ -40,6 +40,35 @@ class Pipeline:
     def pass_file(self, name: str) -> str:
         return f"nsl/passes/{name}.py"
 
+    # -- freshness ---------------------------------------------------------
+    def check_pass_freshness(self, col, rule, names=None):
+        """Every Compiler gets pass objects (and visitors, which hold the verdict flag) of its own: GetPass is not
+        memoised, and the visitor it hands to the pass is constructed inside the call, not at import time."""
+        n = 0
+        for pname in (names or sorted(set(self.ast_passes + self.ir_passes))):
+            rel = self.pass_file(pname)
+            if rel not in self.model.files:
+                raise AnchorMissing(f"{rel}: pass module not found")
+            fi = self.model.files[rel]
+            gp = fi.functions.get("GetPass")
+            if gp is None:
+                raise AnchorMissing(f"{rel}::GetPass")
+            n += 1
+            memo = [unparse(d) for d in gp.decorator_list]
+            col.check(not memo, rule, f"{rel}::GetPass is not memoised", "each call builds a new pass",
+                      f"GetPass is decorated with {memo}: every Compiler in the process shares one pass object and one visitor, so a verdict flag cleared by one compilation "
+                      "is still cleared in the next (valid programs are rejected after an invalid one)", rel, gp)
+            # module-level visitor/pass instances handed out by GetPass
+            shared = []
+            for r in ast.walk(gp):
+                if isinstance(r, ast.Name) and isinstance(r.ctx, ast.Load) and r.id in fi.assigns and isinstance(fi.assigns[r.id], ast.Call):
+                    callee = last_attr(fi.assigns[r.id]) or ""
+                    if callee[:1].isupper() or callee in ("GetPass", "MakePassFromVisitor"):
+                        shared.append(r.id)
+            col.check(not shared, rule, f"{rel}::GetPass builds its visitor per call", "the visitor/pass object is constructed inside GetPass",
+                      f"GetPass hands out module-level object(s) {sorted(set(shared))} created at import time: all Compilers share their state", rel, gp)
+        col.floor(rule, "pass factories", n, 1)
+
     # -- gating ------------------------------------------------------------
     def check_gating(self, col, rule):
         """A pass that returns False stops compilation with no Result."""
